@@ -398,8 +398,12 @@ def run_task(task, ctx):
         if parts[1] != 'symbols':
             # only what conservation relies on: the gradient is the scalar
             # dwdq factor times XIJ (central, antisymmetric in the pair)
+            # ... and, for the densities, that the kernel value is
+            # non-negative and vanishes outside its support for every h
+            keep = ('.gradient', '.kernel.nonneg', '.kernel.support',
+                    '.kernel.knots')
             ctx.results[n0:] = [r for r in ctx.results[n0:]
-                                if r['name'].endswith('.gradient') or
+                                if r['name'].endswith(keep) or
                                 r.get('kind') in ('cover', 'canary')]
         for r in ctx.results[n0:]:
             r['name'] = 'dep.' + r['name']
